@@ -338,7 +338,7 @@ class DIP:
             if isinstance(node,(IntegerNode, FloatNode, StringNode)):
                 node.validate_options()
             # Check conditions
-            if node.keyword in ['float','int'] and node.condition:
+            if node.condition:
                 target.autoref = node.name
                 with LogicalSolver(target) as s:
                     result = s.solve(node.condition)
